@@ -192,6 +192,20 @@ def run_rules(ctx, chk):
                'an early exit for "%s" %s' % (need, 'exists' if need in reasons_seen else 'is MISSING (the reader would wait on / mis-handle this state)'),
                nontrivial=False)
     chk.floor('C03.G3', 'accept sites', n_accept, 1)
+    # ---- G7 the give-up exit: when the retry budget runs out (the writer stalled or died mid-update) the call fails and leaves
+    # the cache as it was -- the next call, finding the generation still odd, serves the record the reader already returned,
+    # not an empty one. The budget is a constant, so the exit is reached only with the loop-carried locals forgotten.
+    eng7 = common.mk_engine(fb, havoc_loops=True)
+    n7 = 0
+    for p in eng7.run(r.body):
+        if p.kind != 'return' or not (p.value[0] == 'agg' and p.value[2] == 'Err'):
+            continue
+        stores = {k: v for k, v in r.self_stores(p).items() if r.is_cache_field(k)}
+        n7 += 1
+        chk.ob('C03.G7', 'give-up-exit:no-cached-state-change', not stores, p.where[2],
+               'the exit taken when the retries are used up assigns %s' % (sorted(stores) or 'no cache field'))
+    chk.analysed['paths'] += n7
+    chk.floor('C03.G7', 'error exits of snapshot() reached with the loop state forgotten', n7, 1)
 
 
 def _was_first(fr, key, first, r):
